@@ -225,12 +225,55 @@ func (w *World) k5Possible(m *RepoModel, d string) bool {
 }
 
 // k1Possible: recorded finding K1 - an untagged manifest that was adopted as a child of a later stored index (or
-// referrers answer) is no longer found after a reload once no present index lists it.
+// referrers answer) has no entry of its own in index.json; after a reload it is only found again if it can be
+// derived from manifests that do have an entry.
 func (w *World) k1Possible(m *RepoModel, d string) bool {
-	if !m.Adopted[d] || w.Kind == Mem || m.Tagged(d) {
+	if w.Kind == Mem || m.Tagged(d) {
 		return false
 	}
-	return true
+	return w.Orphans(m, nil)[d]
+}
+
+// Orphans returns the manifests that live only in a child list (adopted, untagged) and are not derivable from the
+// manifests that have an index.json entry of their own, through the children of present indexes (at any nesting
+// depth) and through the referrers answers of present subjects (unlisted = artifacts known to be missing from
+// their subject's answer).
+func (w *World) Orphans(m *RepoModel, unlisted map[string]bool) map[string]bool {
+	reach := map[string]bool{}
+	var q []string
+	for d := range m.Mans {
+		if (!m.Adopted[d] || m.Tagged(d)) && m.Stored[d] != nil {
+			reach[d] = true
+			q = append(q, d)
+		}
+	}
+	for len(q) > 0 {
+		d := q[0]
+		q = q[1:]
+		p := m.Mans[d]
+		var next []string
+		if p != nil && p.Index {
+			next = append(next, p.Refs...)
+		}
+		for _, a := range m.Referrers(d) {
+			if !unlisted[a] {
+				next = append(next, a)
+			}
+		}
+		for _, c := range next {
+			if !reach[c] && m.Mans[c] != nil && m.Stored[c] != nil {
+				reach[c] = true
+				q = append(q, c)
+			}
+		}
+	}
+	out := map[string]bool{}
+	for d := range m.Mans {
+		if m.Adopted[d] && !reach[d] {
+			out[d] = true
+		}
+	}
+	return out
 }
 
 // Snap is the observable state of one repository over the universe.
@@ -494,6 +537,7 @@ func (w *World) Compare(repo string, real Snap) []Diff {
 		if wv == "404" && gv == "ok" && w.k5Possible(m, mm.D) {
 			d.Known = "K5"
 			m.Mans[mm.D] = mm // adopt
+			m.Adopted[mm.D] = true // it exists only as a child of the index that lists it
 			delete(m.DelDig, mm.D)
 		} else if wv == "ok" && gv == "404" && w.k1Possible(m, mm.D) {
 			d.Known = "K1"
@@ -505,6 +549,7 @@ func (w *World) Compare(repo string, real Snap) []Diff {
 			// this is the state the specification asked for all along
 			d.Known = "K1"
 			m.Mans[mm.D] = mm
+			m.Adopted[mm.D] = true
 			delete(m.LostK1, mm.D)
 		}
 		d.Key = mm.Name + "(" + Short(mm.D) + ")"
